@@ -25,10 +25,12 @@ const c19Ref = "verif_cref"
 
 // c19Cfg is one point of the product.
 type c19Cfg struct {
-	Use      string   // qual | anon | both | neither   (how "C" is introduced besides a preamble)
-	Pre      []string // preamble blocks as handed to CgoPreamble, in order
-	Styles   string   // one letter per block: o(ne-line text) m(ulti-line text) r(aw comment) n(one-line text + "\n") t(wo-line text + "\n")
-	Others   string   // none | one | many | aliased | anon
+	Use    string   // qual | anon | both | neither   (how "C" is introduced besides a preamble)
+	Pre    []string // preamble blocks as handed to CgoPreamble, in order
+	Styles string   // one letter per block: o(ne-line text) m(ulti-line text) r(aw comment) n(one-line text + "\n") t(wo-line text + "\n")
+	//                   the "mixed" stream: o m, l (raw `// x`) k (raw `/* x */`) K (raw multi-line block) e(mpty text) b (text with an empty line inside)
+	Stream   string // "" = product
+	Others   string // none | one | many | aliased | anon
 	Prefix   bool
 	Hint     string // none | name | alias | dot
 	NoFormat bool
@@ -57,6 +59,31 @@ func c19Block(style byte, i int, rawLine bool) string {
 		return fmt.Sprintf("/* #include <rawblock%d.h> */", i)
 	}
 }
+
+// c19MixedBlock: block number i of the "mixed" stream; every form is explicit (no
+// alternation), the raw forms are single comments without trailing newline.
+func c19MixedBlock(style byte, i int) string {
+	switch style {
+	case 'l':
+		return fmt.Sprintf("// #cgo LDFLAGS: -lrawline%d", i)
+	case 'k':
+		return fmt.Sprintf("/* #include <rawblock%d.h> */", i)
+	case 'K':
+		return fmt.Sprintf("/*\n#include <rawmulti%d.h>\nint k%d(void);\n*/", i, i)
+	case 'e':
+		return ""
+	case 'L': // raw line comment ENDING IN A NEWLINE (fixed in /repo cc47444: it left an empty line below)
+		return fmt.Sprintf("// #cgo LDFLAGS: -lrawlinenl%d\n", i)
+	case 'Q': // raw block comment followed by two newlines
+		return fmt.Sprintf("/* #include <rawblocknl%d.h> */\n\n", i)
+	case 'b':
+		return fmt.Sprintf("#include <gap%d.h>\n\nint h%d(void);", i, i)
+	}
+	return c19Block(style, i, true)
+}
+
+const c19MixedForms = "olkme" // plain text, raw //, raw /* */, multi-line plain, empty: every order
+const c19MixedMore = "olkmeKbntLQLQ"
 
 func c19Blocks(styles string, firstRawIsLine bool) []string {
 	var out []string
@@ -166,7 +193,28 @@ func c19Make(cfg c19Cfg) *Case {
 	h = append(h, hist.Op{Kind: "render", F: 0}, hist.Op{Kind: "imports", F: 0})
 	tags := []string{"use=" + cfg.Use, fmt.Sprintf("preambles=%d", len(cfg.Pre)), "others=" + cfg.Others, "prefix=" + onoff(cfg.Prefix), "hint=" + cfg.Hint}
 	for _, s := range []byte(cfg.Styles) {
-		tags = append(tags, "style="+map[byte]string{'o': "one-line", 'm': "multi-line", 'r': "raw", 'n': "one-line+newline", 't': "two-line+newline"}[s])
+		tags = append(tags, "style="+map[byte]string{'o': "one-line", 'm': "multi-line", 'r': "raw", 'n': "one-line+newline", 't': "two-line+newline",
+			'l': "raw-line", 'k': "raw-block", 'K': "raw-multi-line-block", 'e': "empty", 'b': "multi-line-with-empty-line",
+			'L': "raw-line+newline", 'Q': "raw-block+newlines"}[s])
+	}
+	if cfg.Stream == "mixed" {
+		raw, plain := strings.ContainsAny(cfg.Styles, "lkKLQ"), strings.ContainsAny(cfg.Styles, "ombnte")
+		distinct := map[byte]bool{}
+		for _, s := range []byte(cfg.Styles) {
+			distinct[s] = true
+		}
+		tags = append(tags, fmt.Sprintf("mixed-forms=%d-distinct", len(distinct)))
+		if raw && plain {
+			tags = append(tags, "mixed=raw-and-plain")
+			if strings.IndexAny(cfg.Styles, "lkKLQ") < strings.IndexAny(cfg.Styles, "ombnte") {
+				tags = append(tags, "mixed=raw-first")
+			} else {
+				tags = append(tags, "mixed=plain-first")
+			}
+		}
+		if strings.Contains(cfg.Styles, "l") && strings.Contains(cfg.Styles, "k") {
+			tags = append(tags, "mixed=both-raw-forms")
+		}
 	}
 	if strings.ContainsAny(cfg.Styles, "nt") {
 		tags = append(tags, "preamble-trailing-newline")
@@ -191,7 +239,59 @@ func c19Make(cfg c19Cfg) *Case {
 	// so there is an import spec for the oracle to judge; the cases without any of the three
 	// only check absence.
 	nt := cfg.Use != "neither" || len(cfg.Pre) > 0
-	return &Case{Hist: h, Stream: "product", NonTrivial: nt, Tags: tags, Meta: map[string]interface{}{"cfg": cfg, "others": others}}
+	stream := "product"
+	if cfg.Stream != "" {
+		stream = cfg.Stream
+	}
+	return &Case{Hist: h, Stream: stream, NonTrivial: nt, Tags: tags, Meta: map[string]interface{}{"cfg": cfg, "others": others}}
+}
+
+// c19Mixed: 1..5 preamble blocks of MIXED form.  Every order of the five forms {plain text,
+// raw `// x`, raw `/* x */`, multi-line plain, empty} for 1..5 blocks (3905 sequences), then
+// drawn sequences over nine forms (those, a raw multi-line block, a text with an empty line
+// inside, the two newline-terminated texts).  Each sequence runs under configurations drawn
+// from the product's other dimensions (use, other imports, prefix, hint, NoFormat): quick 2 for
+// a sequence of up to 4 blocks and 1 for 5 blocks, thorough 6 and 3.
+func c19Mixed(r *rand.Rand, t string) []*Case {
+	var out []*Case
+	cfgOf := func(seq string) c19Cfg {
+		var pre []string
+		for i := 0; i < len(seq); i++ {
+			pre = append(pre, c19MixedBlock(seq[i], i))
+		}
+		return c19Cfg{Stream: "mixed", Pre: pre, Styles: seq,
+			Use:    pick(r, []string{"qual", "anon", "both", "neither"}),
+			Others: pick(r, []string{"none", "one", "many", "aliased", "anon"}),
+			Prefix: r.Intn(2) == 0, Hint: pick(r, []string{"none", "none", "name", "alias", "dot"}), NoFormat: r.Intn(4) == 0}
+	}
+	var rec func(prefix string, n int)
+	rec = func(prefix string, n int) {
+		if n == 0 {
+			k := tier(t, 2, 6)
+			if len(prefix) == 5 {
+				k = tier(t, 1, 3)
+			}
+			for j := 0; j < k; j++ {
+				out = append(out, c19Make(cfgOf(prefix)))
+			}
+			return
+		}
+		for i := 0; i < len(c19MixedForms); i++ {
+			rec(prefix+string(c19MixedForms[i]), n-1)
+		}
+	}
+	for n := 1; n <= 5; n++ {
+		rec("", n)
+	}
+	for i, n := 0, tier(t, 1500, 30000); i < n; i++ {
+		l := 1 + r.Intn(5)
+		b := make([]byte, l)
+		for j := range b {
+			b[j] = c19MixedMore[r.Intn(len(c19MixedMore))]
+		}
+		out = append(out, c19Make(cfgOf(string(b))))
+	}
+	return out
 }
 
 func (c19) Generate(r *rand.Rand, t string) []*Case {
@@ -255,13 +355,31 @@ func (c19) Generate(r *rand.Rand, t string) []*Case {
 			}
 		}
 	}
-	return out
+	// last, so that the draws of the product above do not change
+	return append(out, c19Mixed(r, t)...)
 }
 
 func (c19) Regressions() []*Case {
 	c := c19Make(c19Cfg{Use: "qual", Others: "none", Hint: "dot"})
 	c.Name, c.Stream = "dot-hint-on-C", "regression"
-	return []*Case{c}
+	out := []*Case{c}
+	// fixed in /repo cc47444: raw preamble blocks that end in a newline
+	for i, seq := range []string{"L", "Ll", "lL", "Q", "oLk", "LQ"} {
+		var pre []string
+		for j := 0; j < len(seq); j++ {
+			pre = append(pre, c19MixedBlock(seq[j], j))
+		}
+		d := c19Make(c19Cfg{Stream: "regression", Pre: pre, Styles: seq, Use: "qual", Others: []string{"none", "many"}[i%2], Hint: "none"})
+		d.Name, d.Stream = "raw-preamble-trailing-newline", "regression"
+		out = append(out, d)
+	}
+	// open finding (gofmt): a form feed inside a preamble written as a block comment makes
+	// go/format put `import "C"` on the comment's last line: the comment is no longer the
+	// declaration's doc comment and cgo ignores it
+	ff := c19Make(c19Cfg{Stream: "regression", Pre: []string{"#include <a.h>\fint f(void);\nint g(void);"}, Styles: "m", Use: "qual", Others: "none", Hint: "none"})
+	ff.Name, ff.Stream = "gofmt-formfeed-joins-preamble", "regression"
+	out = append(out, ff)
+	return out
 }
 
 func (c19) Compare(c *Case, exp, got []hist.Obs) string { return CompareAll(exp, got) }
@@ -286,7 +404,7 @@ func commentLines(text string) []string {
 	case strings.HasPrefix(text, "//"):
 		text = text[2:]
 	case strings.HasPrefix(text, "/*"):
-		text = strings.TrimSuffix(text[2:], "*/")
+		text = strings.TrimSuffix(strings.TrimRight(text[2:], "\n"), "*/")
 	}
 	var out []string
 	for _, l := range strings.Split(text, "\n") {
